@@ -1,5 +1,5 @@
 #!/bin/bash
-# usage: extract.sh <repo dir> <out dir> <config: default|bmi2>
+# usage: extract.sh <repo dir> <out dir> <config: default|bmi2|nodebug>
 # Runs the chessfacts driver as RUSTC_WORKSPACE_WRAPPER under `cargo +nightly check --offline`
 # on <repo dir> with a fresh target directory (so cargo's freshness cache can never skip it).
 set -euo pipefail
@@ -13,6 +13,8 @@ trap 'rm -rf "$TGT"' EXIT
 mkdir -p "$OUT"
 FLAGS="-Awarnings"
 if [ "$CONFIG" = "bmi2" ]; then FLAGS="$FLAGS -C target-feature=+bmi2"; fi
+# the library as a release profile sees it: debug_assert! bodies and overflow checks compiled out
+if [ "$CONFIG" = "nodebug" ]; then FLAGS="$FLAGS -C debug-assertions=off"; fi
 cd "$REPO"
 # the build script runs the table generators: bound it (a broken generator must not hang the check)
 ulimit -v 16000000 2>/dev/null || true
